@@ -15,6 +15,7 @@ pub mod c06;
 pub mod c07;
 pub mod rules;
 pub mod c10;
+pub mod c12;
 pub mod pat;
 pub mod c19;
 
